@@ -606,7 +606,11 @@ def execute_spec(spec):
             key = json.dumps(op)
             ref = fis[t.fx].get('refs', {}).get(key)
             if ref is None:
-                raise RuntimeError('no solo reference prepared for op %s' % key)
+                # an op the preparation did not pool (a minimiser candidate, or a replay in a process that prepared
+                # nothing): its solo reference is computed here, on fresh objects
+                ref, tk = reference(fis[t.fx], op, full=False)
+                fis[t.fx].setdefault('refs', {})[key] = ref
+                fis[t.fx].setdefault('ticks', {})[key] = tk
             t.gen = OPS[op[0]](ctxs[t.fx], *op[1:])
             t.si = 0
             t.ref = ref
@@ -955,6 +959,65 @@ def minimise(spec, key, still_fails, deadline):
                 got['schedule'] = sched[:hi]
             if _run(got, key):
                 spec = got
+    # (5) simplify the ops themselves: unwrap "twice in a row", shrink element lists (session queries, *_seq arguments)
+    def try_ops(tasks):
+        if not alive():
+            return None
+        r5 = _run(dict(spec, tasks=tasks, lenient=True), key)
+        if r5 is None:
+            return None
+        got = dict(r5['spec'])
+        got.pop('lenient', None)
+        return got
+
+    changed = True
+    rounds = 0
+    while changed and alive() and rounds < 3:
+        changed = False
+        rounds += 1
+        for ti in range(len(spec['tasks'])):
+            for oi in range(len(spec['tasks'][ti])):
+                op = spec['tasks'][ti][oi]
+                cands = []
+                if op[0] == 'x2':
+                    cands.append(op[1])
+                ew = poolmod.ELEMENTWISE.get(op[0])
+                if ew and isinstance(op[ew[0]], list) and len(op[ew[0]]) > 1:
+                    lst = op[ew[0]]
+                    for cut in (lst[:1], lst[-1:], lst[:len(lst) // 2], lst[len(lst) // 2:], lst[:-1], lst[1:]):
+                        c = list(op)
+                        c[ew[0]] = cut
+                        cands.append(c)
+                for c in cands:
+                    tasks = [list(t) for t in spec['tasks']]
+                    tasks[ti][oi] = c
+                    got = try_ops(tasks)
+                    if got is not None:
+                        spec = got
+                        changed = True
+                        break
+    # (6) a second file whose task has become empty is not part of the story
+    if spec.get('files') and len(spec['files']) > 1:
+        tf = spec.get('task_files') or []
+        used = set(tf[i] for i, t in enumerate(spec['tasks']) if t)
+        if used == {0}:
+            cand = dict(spec)
+            cand.pop('files')
+            cand.pop('task_files', None)
+            if not any(isinstance(e[1], str) and ':' in e[1] for e in cand['schedule'] if e[0] == 'displace'):
+                if _run(cand, key):
+                    spec = cand
+    # cut once more after the failing step (lenient runs may have appended fill steps)
+    sched = spec['schedule']
+    lo, hi = 1, len(sched)
+    while lo < hi and alive():
+        mid = (lo + hi) // 2
+        if _run(dict(spec, schedule=sched[:mid]), key):
+            hi = mid
+        else:
+            lo = mid + 1
+    if hi < len(sched) and _run(dict(spec, schedule=sched[:hi]), key):
+        spec['schedule'] = sched[:hi]
     spec.pop('lenient', None)
     return spec
 
